@@ -165,7 +165,7 @@ fn c11_k_proper_point_in_envelopes() {
 //      of them; the expected signs were computed with exact rational arithmetic).  The REAL robust::orient2d runs
 //      here (no stub): concrete input, so CBMC executes the adaptive expansion arithmetic by constant folding.
 #[cfg(kani)]
-const HARD_TRIPLES: [(f64, f64, f64, f64, f64, f64, i8); 7] = [
+const HARD_TRIPLES: [(f64, f64, f64, f64, f64, f64, i8); 13] = [
     (94.78705740730024, 66.35094018511016, 39.488401407353116, 27.64188098514718, 4.838159498444966, 3.3867116489114766, -1),
     (10.314540687234699, 51.572703436173484, 57.1247270972651, 285.6236354863255, 18.795223968446482, 93.97611984223241, 1),
     (60.89981231344999, 42.629868619414985, 7.329354737292205, 5.1305483161045435, 51.198163736448436, 35.8387146155139, -1),
@@ -173,6 +173,15 @@ const HARD_TRIPLES: [(f64, f64, f64, f64, f64, f64, i8); 7] = [
     (98.46691339965336, 295.4007401989601, 44.0682805637918, 132.2048416913754, 11.00173121699664, 33.00519365098993, -1),
     (51.63828855104252, 258.1914427552126, 20.529448520087055, 102.64724260043529, 95.20257450059395, 476.0128725029698, -1),
     (0.5, 2.5, 12.0, 60.0, 24.0, 120.0, 0),
+    // maximally deceptive: the naive determinant has the wrong sign although |det| > 1.0 eps * (|l| + |r|), i.e. it
+    // passes a static filter whose error bound is only slightly too tight (found by random search, exact signs by
+    // rational arithmetic)
+    (9.443727486259471, 2.833118245877841, 25.976067016127946, 7.792820104838383, 59.93693234563183, 17.98107970368955, 1),
+    (97.15284411612213, 165.15983499740761, 15.698170294509076, 26.68688950066543, 96.08392882034877, 163.34267899459292, 1),
+    (79.05726671943584, 23.717180015830753, 12.132968452025288, 3.639890535607586, 83.72653693402245, 25.117961080206733, 1),
+    (83.34866195326882, 27.78288731775627, 16.61219588962347, 5.53739862987449, 83.54548107716816, 27.848493692389386, -1),
+    (71.28180598713753, 498.9726419099627, 27.3441417784507, 191.4089924491549, 7.8814772377591265, 55.17034066431388, 1),
+    (29.766581471384992, 208.36607029969494, 72.22232272522795, 505.55625907659567, 31.448880707998047, 220.14216495598632, -1),
 ];
 
 #[cfg(kani)]
@@ -195,3 +204,21 @@ fn c03_k_hard_triple_1() { body_hard_triple(1); }
 fn c03_k_hard_triple_4() { body_hard_triple(4); }
 #[cfg(kani)] #[kani::proof] #[kani::unwind(40)]
 fn c03_k_hard_triple_collinear() { body_hard_triple(6); }
+#[cfg(kani)] #[kani::proof] #[kani::unwind(40)]
+fn c03_k_hard_triple_2() { body_hard_triple(2); }
+#[cfg(kani)] #[kani::proof] #[kani::unwind(40)]
+fn c03_k_hard_triple_3() { body_hard_triple(3); }
+#[cfg(kani)] #[kani::proof] #[kani::unwind(40)]
+fn c03_k_hard_triple_5() { body_hard_triple(5); }
+#[cfg(kani)] #[kani::proof] #[kani::unwind(40)]
+fn c03_k_hard_triple_7() { body_hard_triple(7); }
+#[cfg(kani)] #[kani::proof] #[kani::unwind(40)]
+fn c03_k_hard_triple_8() { body_hard_triple(8); }
+#[cfg(kani)] #[kani::proof] #[kani::unwind(40)]
+fn c03_k_hard_triple_9() { body_hard_triple(9); }
+#[cfg(kani)] #[kani::proof] #[kani::unwind(40)]
+fn c03_k_hard_triple_10() { body_hard_triple(10); }
+#[cfg(kani)] #[kani::proof] #[kani::unwind(40)]
+fn c03_k_hard_triple_11() { body_hard_triple(11); }
+#[cfg(kani)] #[kani::proof] #[kani::unwind(40)]
+fn c03_k_hard_triple_12() { body_hard_triple(12); }
